@@ -178,3 +178,18 @@ check("C14",
       "Partial: the pass-rate float expression is checked against its integer bounds only (fail/total counts are compared through them); html.c text layout and "
       "escaping are not modelled (the parser of index.html is trusted); regress-log extraction is C13's model. Trusted: Lean kernel; translator; harness; ASan.",
       "DESIGN.md#c14")
+
+check("C07",
+      "Lean 4 proof over the runner's wait/kill loop for every signal arrival time and every behaviour of the step's main process + real robsd-exec on generated process trees with SIGTERM at chosen points (timing and LD_PRELOAD shim), /proc scan of every member",
+      "Proof (Runner.run, adversarial environment: any arrival iteration of SIGTERM/SIGALRM, any time the main process becomes reapable on its own / after TERM / "
+      "after KILL): a request that arrives while the main process runs always leads to kill(-pgid, SIGTERM) first, SIGKILL only after 50 unsuccessful polls, the "
+      "runner returns only after the main process is reaped or both bounded waits expired, with a non-zero status, 124 for the timeout (term_takes_effect, "
+      "killwait_spec, kill_only_after_term, exit_nonzero_after_signal); without an event nothing is signalled and the exit status is the command's own "
+      "(never_cut_short, exit_faithful). Correspondence: real robsd-exec on process trees (members ignoring SIGTERM, exiting early, a lingering main process that "
+      "starts a default-disposition member after the TERM wave, runner started with SIGTERM/SIGALRM ignored); SIGTERM while the step runs, right after fork() and "
+      "right before the first waitpid() (shim), regress timeout; exit status, diagnostics, /proc state of every member and the completion marker are checked "
+      "against the property and against the model.",
+      "Partial: what kill(-pgid, sig) does to the members of the group (delivery to every member, default disposition dies, SIGKILL cannot be ignored) is the "
+      "kernel's and only sampled; members that leave the process group are outside the property; arrival points are sampled (three offsets + two shim points), "
+      "the model covers all of them. Trusted: Lean kernel; shim; harness.",
+      "DESIGN.md#c07")
